@@ -162,6 +162,30 @@ _KW = set("if while for switch return sizeof static_cast reinterpret_cast const_
           "defined static_assert throw typeid noexcept alignas".split())
 
 
+_CONST_TYPES = {'size_t': 'size_t', 'ssize_t': 'ssize_t', 'int': 'int', 'unsigned': 'unsigned', 'uint32_t': 'uint32_t', 'int32_t': 'int32_t',
+                'uint64_t': 'uint64_t', 'int64_t': 'int64_t', 'uint16_t': 'uint16_t', 'uint8_t': 'uint8_t', 'long': 'long', 'bool': 'bool'}
+
+
+def const_subs(repo, relpath, piece, known=()):
+    """R4 (class constants): for every identifier of the piece spelled kName that the unit does not define itself (`known`), look for
+    `constexpr <integer type> kName = <integer literal>;` in the same source file and substitute the typed literal.  Anything else
+    (computed initialisers, other types) is left alone and surfaces as a compile error = undecided, never as a guess."""
+    txt = repo.text(relpath)
+    out = []
+    for name in sorted(set(re.findall(r'(?<![\w.>:])k[A-Z][A-Za-z0-9_]*\b', piece.text))):
+        if name in known:
+            continue
+        ms = list(re.finditer(r'constexpr\s+(?:const\s+)?([\w:]+)\s+' + name + r'\s*=\s*(\d+)[uUlL]*\s*;', txt))
+        if len(ms) != 1:
+            continue
+        ty = ms[0].group(1).replace('std::', '')
+        if ty not in _CONST_TYPES:
+            continue
+        out.append(('R4', r'(?<![\w.>:])' + name + r'\b', '((%s)%s)' % (_CONST_TYPES[ty], ms[0].group(2)), 'opt'))
+    return out
+
+
+
 def inline_helpers(repo, relpath, piece, within=None, exclude=(), depth=3):
     """R19: a call to a helper defined in the same scope (class body or file) that is not itself rendered by a rule is inlined
     textually, so that a refactoring which moves statements into a new private helper is still followed:
